@@ -90,10 +90,13 @@ def run_jobs(jobs, procs=8, watchdog=20000, timeout=3600):
                     # the process died while it ran job number `done` of its list. A panic on the search goroutine cannot be
                     # recovered by the driver: when the dying goroutine was inside the engine, that IS the observation (the
                     # search brought the engine down) - recorded for that job, and the rest of the list goes on
-                    err = open(pr["ef"], errors="replace").read()[-6000:] if os.path.exists(pr["ef"]) else ""
+                    err = open(pr["ef"], errors="replace").read() if os.path.exists(pr["ef"]) else ""
+                    # (the report of the dying goroutine comes first; a deep recursion makes it long - look from the panic line on)
+                    at = max(err.rfind("\npanic: "), err.rfind("\nfatal error: "), err.find("panic: ") if err.startswith("panic: ") else -1)
+                    err = err[at + 1:] if at >= 0 else err[-6000:]
                     first = err.split("goroutine ", 2)[1] if "goroutine " in err else ""
                     crashes[0] += 1
-                    if done >= pr["n"] or "/internal/" not in first or crashes[0] > 40:
+                    if done >= pr["n"] or "/internal/" not in first:
                         raise Inconclusive("search driver died (rc=%s) after %d of %d jobs: %s" % (rc, done, pr["n"], err[-400:]))
                     job = [json.loads(l) for l in open(pr["jf"])][done]
                     what = (err.split("\n\ngoroutine")[0].strip().splitlines() or ["?"])[0][:300]
@@ -104,7 +107,7 @@ def run_jobs(jobs, procs=8, watchdog=20000, timeout=3600):
                     with open(pr["rf"], "a") as fh:
                         fh.write(json.dumps(rec) + "\n")
                     pr["skip"] = done + 1
-                    if pr["skip"] >= pr["n"]:
+                    if pr["skip"] >= pr["n"] or crashes[0] > 40:      # (after 40 crashes the rest of this list is not run: the verdict is in)
                         pending.remove(pr)
                     else:
                         start(pr)
